@@ -13,7 +13,8 @@ from ..ref import kin, units
 PROPERTY = "C01"
 RULE = (
     "Hypothesis draws a kernel (or route / round trip / graph origin+target), a precision class "
-    "(float64/float32, all operands alike), an operand shape class (scalar, 1-d, 2-d broadcast, "
+    "(float64/float32, all operands alike; in the kernel facet float64 cases may carry int64 operands "
+    "holding whole numbers in their own unit), an operand shape class (scalar, 1-d, 2-d broadcast, "
     "per-pixel geometry), a unit per operand, and per element a magnitude log-uniform over "
     "1e-9..1e9 SI (boundary-biased: exact powers of ten, few-mantissa-bit values) and a scattering "
     "angle in (0, pi] with extra mass within 1e-12..1e-3 of 0, pi/2 and pi. Oracle: the closed "
@@ -111,6 +112,11 @@ def operand(draw, quantity, n, dtype, exp_range):
             if dtype == "float32":
                 lim = float(np.nextafter(np.float32(lim), np.float32(0)))
             vals.append(min(max(v, 1e-30), lim))
+    elif dtype == "int64":
+        # whole numbers in the operand's own unit (raw event times in ns, lengths in mm, ...), small
+        # enough that their squares are representable
+        vals = [float(int(10.0 ** e)) for e in draw(st.lists(st.floats(0, 9.3), min_size=n, max_size=n))]
+        return {"unit": unit, "values": vals, "dtype": "int64"}
     else:
         si = draw(st.lists(logfloat(*exp_range), min_size=n, max_size=n))
         vals = [_stored(s, unit, dtype) for s in si]
@@ -121,7 +127,7 @@ SHAPES = ["scalar", "1d", "2d", "pixel", "2dgeo"]
 
 
 @st.composite
-def operands(draw, names, data_name, dtype=None, shapes=SHAPES):
+def operands(draw, names, data_name, dtype=None, shapes=SHAPES, int_ops=False):
     dtype = dtype or draw(st.sampled_from(["float64", "float64", "float32"]))
     shape = draw(st.sampled_from(shapes))
     nx = draw(st.integers(1, 4))
@@ -140,7 +146,10 @@ def operands(draw, names, data_name, dtype=None, shapes=SHAPES):
             dims, n = ([], 1) if is_data else (["spectrum"], ns)
         else:  # 2dgeo
             dims, n = (["x"], nx) if is_data else (["spectrum", "x"], ns * nx)
-        op = draw(operand(name, n, dtype, exp_range))
+        op_dtype = dtype
+        if int_ops and dtype == "float64" and name != "two_theta" and draw(st.booleans()):
+            op_dtype = "int64"
+        op = draw(operand(name, n, op_dtype, exp_range))
         op["dims"] = dims
         op["shape"] = [] if not dims else ([nx] if dims == ["x"] else ([ns] if dims == ["spectrum"] else [ns, nx]))
         ops[name] = op
@@ -151,7 +160,7 @@ def operands(draw, names, data_name, dtype=None, shapes=SHAPES):
 def kernel_cases(draw):
     kname = draw(st.sampled_from(sorted(KERNELS)))
     names, data_name, _, _ = KERNELS[kname]
-    case = draw(operands(names, data_name))
+    case = draw(operands(names, data_name, int_ops=draw(st.sampled_from([False, False, True]))))
     case["kernel"] = kname
     return case
 
@@ -299,7 +308,9 @@ def check_kernel(case):
     labs, nondefault = labels_of(case, ["kernel:" + kname])
     if not f32_inputs_ok(case):
         return [*labs, "f32-input-range-skip"], False
-    args = {n: build_var(ops[n], dtype) for n in names}
+    args = {n: build_var(ops[n], ops[n].get("dtype", dtype)) for n in names}
+    if any("dtype" in op for op in ops.values()):
+        labs.append("int64-operand")
     got = getattr(K, kname)(**args)
     dims, ref = broadcast_ref(ops, names, fn)
     n = compare(got, dims, ref, out_unit, dtype, TOL[dtype], kname)
